@@ -211,6 +211,29 @@ func Strip(v ssa.Value, conv bool) ssa.Value {
 	}
 }
 
+// IsInput reports whether v is a parameter (or captured variable) of the function or a field read off one,
+// i.e. a value handed in by the caller as it is, not the result of any call or computation.
+func IsInput(v ssa.Value) bool {
+	for i := 0; i < 8; i++ {
+		switch x := Strip(v, false).(type) {
+		case *ssa.Parameter, *ssa.FreeVar:
+			return true
+		case *ssa.UnOp:
+			if x.Op != token.MUL {
+				return false
+			}
+			v = x.X
+		case *ssa.FieldAddr:
+			v = x.X
+		case *ssa.Field:
+			v = x.X
+		default:
+			return false
+		}
+	}
+	return false
+}
+
 // FieldRef describes an access x.f (address or value form).
 type FieldRef struct {
 	Base   ssa.Value
